@@ -86,6 +86,12 @@ CHECKS = {
         design="§7 C04",
         note="merlin idealised (injective framing, collision-resistant challenge). Not bound, and outside the property's list: claim types / validators of the issuer's credential schema; None vs empty label/description.",
         technique="Coq theorem (decoder is a left inverse of the transcript encoder => injectivity) + differential correspondence of transcript digests and verification verdicts under single-field mutations"),
+    "C11": dict(
+        text="Theorems for the modelled proof kinds (BBS / PS signature proofs, commitment, equality): a changed response changes the value of the verifier's multi-scalar multiplication (so BBS' t comparison fails and PS' hashed commitment changes) whenever its point is not the identity; the group elements of a proof of knowledge are transcript items; a changed blinder or message response changes the hashed blind commitment; acceptance relative to the derived challenge forces identical transcript items; an underived challenge, an altered carried id, a removed or replaced signature proof are rejected. "
+             "Correspondence: post-creation modifications of external-prover presentations against model and implementation; and on Presentation::create output over every statement kind: every scalar / point leaf x 5 replacement kinds, proofs removed / swapped, challenge, disclosed values / labels, BARE byte and bit flips (quick ~5000 mutations).",
+        design="§7 C11",
+        note="Revocation / membership / range / verifiable-encryption leaves are covered on the implementation only. Panics while decoding corrupted bytes are not acceptance; they are C20's subject.",
+        technique="Coq theorems (algebraic tamper lemmas + verifier-model consequences) + exhaustive single-site mutation of honest presentations on the implementation"),
 }
 
 PLANNED = {
